@@ -223,7 +223,7 @@ func c01Property(rt *rapid.T, ev *evid.Rec, o machineOpts, faults bool) {
 func TestC01_Growth(t *testing.T) {
 	ev := evid.For("C01", "Growth")
 	rapid.Check(t, func(rt *rapid.T) {
-		c01Property(rt, ev, machineOpts{MaxDecls: 2}, false)
+		c01Property(rt, ev, machineOpts{MaxDecls: 2, Filters: rapid.IntRange(0, 2).Draw(rt, "withfilters") == 0}, false)
 	})
 }
 
